@@ -1,6 +1,376 @@
 import Driver.Util
-open Lean
+import DoitModel.Model.DelayedSel
+open Lean DoitModel.Delayed
 namespace Driver.Delayed
-/-- handler for requests with `"model": "delayed"` (stub: filled in when the model exists) -/
-def handle (_ : Json) : Json := Driver.err "model not implemented"
+/-! Handler for `{"model":"delayed", …}` (protocol: harness/props/c15.py docstring).
+
+`op = "check"`: runs `process` (the delayed branches of `_filter_tasks`) and then decides whether the observed
+trace of the implementation is a trace of the run model under SOME schedule (DFS over the only choice points:
+which running task finishes next, whether the main thread resumes the dispatcher before that, iteration order of
+`waiting_me`), evaluates the hypotheses of the theorems on the case and the C15 monitors on the observed trace.
+`op = "simulate"`: the model's own trace under the eager serial schedule. -/
+
+def evJson : Ev → Json
+  | .creator c => mkArr [Json.str "creator", toJson c]
+  | .start n => mkArr [Json.str "start", toJson n]
+  | .success n => mkArr [Json.str "success", toJson n]
+  | .failure n => mkArr [Json.str "failure", toJson n]
+  | .unmet n => mkArr [Json.str "unmet", toJson n]
+  | .skipUtd n => mkArr [Json.str "skip", toJson n]
+
+def parseEv (j : Json) : Option Ev :=
+  match asArr j with
+  | [t, n] =>
+    match asStr t with
+    | "creator" => some (.creator (asNat n))
+    | "start" => some (.start (asNat n))
+    | "success" => some (.success (asNat n))
+    | "failure" => some (.failure (asNat n))
+    | "unmet" => some (.unmet (asNat n))
+    | "skip" => some (.skipUtd (asNat n))
+    | _ => none
+  | _ => none
+
+def optNat (j : Json) (k : String) : Option Nat :=
+  match j.getObjVal? k with
+  | .ok v => (v.getNat?).toOption
+  | _ => none
+
+def parseTDef (j : Json) (oid : Nat) : TDef :=
+  { deps := jnats j "deps", loader := optNat j "loader", fileDep := jnats j "fileDep", targets := jnats j "targets",
+    act := jbool j "act", oid := oid }
+
+def parseTasks (xs : List Json) : List (Nat × TDef) :=
+  (xs.zipIdx).map fun (x, i) => match asArr x with
+    | [n, d] => (asNat n, parseTDef d i)
+    | _ => (0, {})
+
+def parseNew (j : Json) : NewTask :=
+  { name := jnat j "name", deps := jnats j "deps", fileDep := jnats j "fileDep", targets := jnats j "targets",
+    act := jbool j "act" }
+
+structure Case where
+  pre : Pre
+  makeTab : List (CId × Nat × List NewTask)
+  sel : Option (List Word)
+  serial : Bool
+  cont : Bool
+  utd : List Nat
+  fails : List Nat
+  noAct : List Nat
+
+def mkMake (tab : List (CId × Nat × List NewTask)) (c : CId) (t : Nat) : List NewTask :=
+  match tab.find? (fun e => e.1 == c && e.2.1 == t) with
+  | some e => e.2.2
+  | none => []
+
+def pairsOf (j : Json) (k : String) : List (Nat × Nat) :=
+  (jarr j k).map fun x => match asArr x with | [a, b] => (asNat a, asNat b) | _ => (0, 0)
+
+def parseCase (j : Json) : Case :=
+  let loaders := jarr j "loaders"
+  let lget (l : Nat) : Json := loaders.getD l Json.null
+  let matchesL := pairsOf j "matches"
+  let rx := (jarr j "rxName").map fun x => match asArr x with | [a, b, c] => (asNat a, asNat b, asNat c) | _ => (0, 0, 0)
+  let pre : Pre :=
+    { tasks := parseTasks (jarr j "tasks")
+      targets := pairsOf j "targets"
+      creatorOf := fun l => jnat (lget l) "creator"
+      execOf := fun l => optNat (lget l) "exec"
+      hasRegex := fun l => jbool (lget l) "regex"
+      rxMatch := fun l w => matchesL.contains (l, w)
+      auto := jbool j "auto"
+      rxName := fun w t => match rx.find? (fun e => e.1 == w && e.2.1 == t) with | some e => e.2.2 | none => 999999 }
+  let makeTab := (jarr j "make").map fun x => match asArr x with
+    | [c, t, l] => (asNat c, asNat t, (asArr l).map parseNew)
+    | _ => (0, 0, [])
+  let sel := match j.getObjVal? "sel" with
+    | .ok (.arr a) => some (a.toList.map fun x => ({ w := jnat x "w", base := jnat x "base" } : Word))
+    | _ => none
+  { pre := pre, makeTab := makeTab, sel := sel, serial := jbool j "serial", cont := jbool j "cont",
+    utd := jnats j "utd", fails := jnats j "fails", noAct := jnats j "noAct" }
+
+def inputOf (c : Case) (st : FState) : Input :=
+  toInput c.pre st (mkMake c.makeTab) c.serial c.cont (fun n => c.utd.contains n) (fun n => c.fails.contains n)
+    (fun n => c.noAct.contains n)
+
+/-! ### the acceptor -/
+
+partial def perms : List Nat → List (List Nat)
+  | [] => [[]]
+  | l => if l.length > 5 then
+           -- too many orders to enumerate: every element first, the rest in stored and in reverse order
+           l.flatMap fun x => [x :: l.erase x, x :: (l.erase x).reverse]
+         else l.flatMap fun x => (perms (l.erase x)).map (x :: ·)
+
+structure Ctx where
+  inp : Input
+  par : Bool
+  obs : List Ev            -- oldest first; without the `start` events when `par`
+  obsErr : String
+  obsExit : Nat
+  obsStarted : List Nat    -- tasks whose action started (any position)
+
+/-- the task registered under `n` has an action -/
+def actOf (s : Sys) (n : Nat) : Bool :=
+  match s.tasks n with
+  | some td => td.act
+  | none => false
+
+def hiddenEv (ctx : Ctx) (s : Sys) : Ev → Bool
+  | .start n => ctx.par || !actOf s n
+  | _ => false
+
+def visOf (ctx : Ctx) (s : Sys) : List Ev := (s.events.filter (fun e => !hiddenEv ctx s e)).reverse
+
+def errStr : Susp → String
+  | .err .cyclic => "cyclic"
+  | .err (.notFound _) => "notfound"
+  | .err .dupTarget => "duptarget"
+  | .err .crash => "crash"
+  | _ => "none"
+
+def waitingOf (s : Sys) (n : Nat) : List Nat :=
+  match s.nodes n with
+  | some nd => nd.waitingMe
+  | none => []
+
+/-- the choices tried in a state (the iteration order of `waiting_me` is handled lazily, see `dfs`) -/
+def moves (ctx : Ctx) (s : Sys) : List Choice :=
+  match s.susp with
+  | .running => [.tick []]
+  | .yielded n => [.tick (waitingOf s n)]
+  | .err _ => []
+  | _ =>
+    (s.running.map fun m => Choice.finish m (waitingOf s m)) ++
+      (if ctx.par && s.susp == .idle && !s.stop then [.resume] else [])
+
+/-- the run is over: nothing in flight and the main thread has nothing left to do -/
+def isTerminal (s : Sys) : Bool :=
+  match s.susp with
+  | .err _ => true
+  | .stopIter => s.running.isEmpty
+  | .idle => s.running.isEmpty && s.stop
+  | .holdOn => s.running.isEmpty && s.stop
+  | _ => false
+
+/-- the tasks with an action the model has started -/
+def startedOf (s : Sys) : List Nat :=
+  s.events.filterMap fun e => match e with | .start n => if actOf s n then some n else none | _ => none
+
+def acceptEnd (ctx : Ctx) (s : Sys) (v : List Ev) : Bool :=
+  isTerminal s && ctx.obsStarted.all ((startedOf s).contains ·) &&
+    (errStr s.susp == ctx.obsErr || (ctx.obsErr == "exit3" && errStr s.susp != "none")) && exitCode s == ctx.obsExit &&
+    (match s.susp with
+     | .err _ => (ctx.obs.drop v.length).all fun e => s.running.any fun m => e.reports m
+     | _ => v.length == ctx.obs.length)
+
+/-- Depth-first search for a schedule of the model that produces the observed trace.
+    The iteration order of `waiting_me` (the `perm` of a feeding step) only decides in which order the woken nodes are
+    appended to `ready`; they are appended contiguously.  Instead of enumerating permutations up front the search
+    feeds in the stored order, remembers the woken nodes as a *group*, and when the dispatcher is about to pop a member
+    of a group from `ready` it may pop any remaining member of that group instead — which is the state some other
+    permutation would have produced. -/
+partial def dfs (ctx : Ctx) (s : Sys) (groups : List (List Nat)) : StateM (Nat × Nat × String) (Option Sys) := do
+  let (n, best, bs) ← get
+  if n = 0 then return none
+  let v := visOf ctx s
+  -- a task handed to a worker that is still in flight need not have started its action (the run may be aborted first)
+  if !(v.isPrefixOf ctx.obs) || !((startedOf s).all (fun n => ctx.obsStarted.contains n || s.running.contains n)) then
+    set (n - 1, best, bs)
+    return none
+  if v.length ≥ best then set (n - 1, v.length, reprStr s.susp ++ " running=" ++ toString s.running ++ " stop=" ++ toString s.stop)
+  else set (n - 1, best, bs)
+  if acceptEnd ctx s v then return some s
+  match s.susp, s.cur, s.ready with
+  | .running, none, r :: _ =>
+    let g := (groups.find? (·.contains r)).getD [r]
+    let alts := r :: (g.filter fun x => x != r && s.ready.contains x)
+    for x in alts do
+      match step ctx.inp { s with ready := x :: s.ready.erase x } (.tick []) with
+      | some s' =>
+        match (← dfs ctx s' (groups.map (·.erase x))) with
+        | some r => return some r
+        | none => pure ()
+      | none => pure ()
+    return none
+  | _, _, _ =>
+    for c in moves ctx s do
+      match step ctx.inp s c with
+      | some s' =>
+        let fresh := s'.ready.filter fun x => !s.ready.contains x
+        let groups' := if fresh.length > 1 then groups ++ [fresh] else groups
+        match (← dfs ctx s' groups') with
+        | some r => return some r
+        | none => pure ()
+      | none => pure ()
+    return none
+
+/-- the eager serial-like schedule (used by `simulate` and for diagnostics) -/
+partial def simulate (ctx : Ctx) (s : Sys) (fuel : Nat) : Sys :=
+  if fuel = 0 then s else
+  match (moves ctx s).findSome? (fun c => step ctx.inp s c) with
+  | some s' => simulate ctx s' (fuel - 1)
+  | none => s
+
+/-! ### the monitors' static inputs, derived from the case -/
+
+/-- the creator outputs under the creators' own names (`to_load` = a task of the loaded table) -/
+def normalMake (c : Case) : List (CId × Nat × List NewTask) :=
+  c.makeTab.filter fun e => (lookup0 c.pre.tasks e.2.1).isSome
+
+/-- the dependency table the created tasks are judged by: task_deps of the loaded / placeholder tasks, and of every
+    task a creator yields (with the implicit dependency on the producer of a file_dep) -/
+def depsAll (c : Case) (st : FState) (t : Nat) : List Nat :=
+  let created := (normalMake c).flatMap fun e => e.2.2.filter (fun nt => nt.name == t)
+  if created.isEmpty then
+    (match lookup0 st.tasks t with | some td => td.deps | none => [])
+  else
+    -- a created task: the `executed` trigger is a dependency of the placeholder, not of the task that replaces it
+    created.flatMap fun nt =>
+      nt.deps ++ (nt.fileDep.filterMap fun f =>
+        ((normalMake c).findSome? fun e2 => (e2.2.2.find? (fun n2 => n2.targets.contains f)).map (·.name)))
+
+/-- for the closure of the selection: a name stands for the placeholder AND for the task that replaces it -/
+def depsClosure (c : Case) (st : FState) (t : Nat) : List Nat :=
+  (match lookup0 st.tasks t with | some td => td.deps | none => []) ++ depsAll c st t
+
+def closure (deps : Nat → List Nat) : Nat → List Nat → List Nat → List Nat
+  | 0, _, acc => acc
+  | _, [], acc => acc
+  | fuel + 1, t :: todo, acc =>
+    if acc.contains t then closure deps fuel todo acc else closure deps fuel (deps t ++ todo) (t :: acc)
+
+/-- the producers of command-line word `w` among the creators whose loader matches `w`: tasks created (under the
+    creator's own name) that declare `w` as a target -/
+def producers (c : Case) (w : Nat) : List Nat :=
+  (matched c.pre w c.pre.tasks).flatMap fun (t, l) =>
+    ((mkMake c.makeTab (c.pre.creatorOf l) t).filter (fun nt => nt.targets.contains w)).map (·.name)
+
+/-- … among all creators (a target may be registered by a creator that was evaluated for another reason) -/
+def producersAll (c : Case) (w : Nat) : List Nat :=
+  (normalMake c).flatMap fun e => (e.2.2.filter (fun nt => nt.targets.contains w)).map (·.name)
+
+inductive WordKind | task | target (owner : Nat) | sub (l : LId) | rx | unknown
+deriving Repr
+
+def wordKind (c : Case) (wd : Word) : WordKind :=
+  match lookup0 c.pre.tasks wd.w with
+  | some _ => .task
+  | none =>
+    match lookup0 c.pre.targets wd.w with
+    | some t => .target t
+    | none =>
+      match lookup0 c.pre.tasks wd.base with
+      | some td => (match td.loader with | some l => .sub l | none => .unknown)
+      | none => if matched c.pre wd.w c.pre.tasks = [] then .unknown else .rx
+
+def trigL (c : Case) (l : LId) : List Nat := match c.pre.execOf l with | some d => [d] | none => []
+
+/-- the matched loaders whose placeholder has to be processed for word `w`.  The serial runner handles the
+    placeholders of one word strictly one after the other, so those after the first creator that produces `w` return at
+    once (`regex_group.found`) and their `executed` task is not needed; under the parallel runners a later placeholder
+    may start before `found` is set. -/
+def neededLoaders (c : Case) (w : Nat) : List (Nat × LId) :=
+  let ms := matched c.pre w c.pre.tasks
+  if !c.serial then ms else
+  match ms.findIdx? (fun (t, l) => (mkMake c.makeTab (c.pre.creatorOf l) t).any (fun nt => nt.targets.contains w)) with
+  | some i => ms.take (i + 1)
+  | none => ms
+
+/-- everything the selection may legitimately execute -/
+def roots (c : Case) : List Nat :=
+  match c.sel with
+  | none => c.pre.tasks.map Prod.fst
+  | some ws => ws.flatMap fun wd =>
+    match wordKind c wd with
+    | .task => [wd.w]
+    | .target t => [t]
+    | .sub l => wd.w :: trigL c l
+    | .rx => producersAll c wd.w ++ ((neededLoaders c wd.w).flatMap fun (_, l) => trigL c l)
+    | .unknown => []
+
+/-- C15 `target` on an observed run (events oldest first) -/
+def targetOK (c : Case) (st? : Option FState) (obs : List Ev) (err : String) (exit : Nat) : Bool × String :=
+  let stTasks : FState := st?.getD (fstate0 c.pre)
+  let allowed := closure (depsClosure c stTasks) 10000 (roots c) []
+  let started := obs.filterMap fun e => match e with | .start n => some n | _ => none
+  let outside := started.filter fun n => !allowed.contains n
+  let ws := c.sel.getD []
+  let rxWords := ws.filter fun wd => match wordKind c wd with | .rx => true | .unknown => true | _ => false
+  let orphan := rxWords.filter fun wd => (producersAll c wd.w).isEmpty
+  let orphanM := rxWords.filter fun wd => (producers c wd.w).isEmpty
+  let failed := obs.any fun e => match e with | .failure _ => true | .unmet _ => true | _ => false
+  let good (n : Nat) : Bool := obs.any fun e => e == .success n || e == .skipUtd n
+  if !outside.isEmpty then (false, s!"executed outside the closure of the selection: {outside}")
+  else if !orphan.isEmpty && !failed && err == "none" then
+    (false, s!"a target nobody produces was not reported as an error: {orphan.map (·.w)}")
+  else if orphanM.isEmpty && err == "notfound" then (false, "not-found error although every target has a producer")
+  else if exit == 0 && err == "none" &&
+      rxWords.any (fun wd => !(producersAll c wd.w).any good) then
+    (false, s!"exit 0 but the producer of a selected target was not processed")
+  else (true, "")
+
+def boolJ (b : Bool) : Json := Json.bool b
+
+/-- length of the shortest prefix (oldest first) on which the monitor `f` (newest first) is false; 0 = never -/
+def firstBad (f : List Ev → Bool) (obs : List Ev) : Nat :=
+  ((List.range (obs.length + 1)).find? fun k => !f (obs.take k).reverse).getD 0
+
+def handle (j : Json) : Json :=
+  let c := parseCase j
+  let par := !c.serial
+  let obsJ := jobj j "obs"
+  let obsAll := (jarr obsJ "events").filterMap parseEv
+  let obsErr := let e := jstr obsJ "err"; if e == "" then "none" else e
+  let obsExit := jnat obsJ "exit"
+  let budget := if jnat j "budget" = 0 then 200000 else jnat j "budget"
+  match process c.pre c.sel with
+  | .inl w =>
+    -- `_filter_tasks` raised InvalidCommand(not_found): nothing runs
+    let tgt := targetOK c none obsAll obsErr obsExit
+    Json.mkObj [
+      ("filter", Json.str "notfound"), ("word", toJson w),
+      ("accept", boolJ (obsErr == "notfound" && obsAll.isEmpty && obsExit == 3)),
+      ("model", Json.mkObj [("events", mkArr []), ("err", Json.str "notfound"), ("exit", toJson (3 : Nat))]),
+      ("wf", Json.mkObj [("resolves", boolJ true), ("covers", boolJ true), ("trig", boolJ true)]),
+      ("prop", Json.mkObj [("once", boolJ (onceOK obsAll.reverse)), ("after", boolJ true), ("obey", boolJ true),
+                           ("utd", boolJ true), ("target", boolJ tgt.1), ("target_why", Json.str tgt.2)]),
+      ("visited", toJson (0 : Nat))]
+  | .inr st =>
+    let inp := inputOf c st
+    let obsM := if par then obsAll.filter (fun e => match e with | .start _ => false | _ => true) else obsAll
+    let startedObs := (obsAll.filterMap fun e => match e with | .start n => some n | _ => none)
+    let ctx : Ctx := { inp := inp, par := par, obs := obsM, obsErr := obsErr, obsExit := obsExit, obsStarted := startedObs }
+    let op := jstr j "op"
+    let sim := simulate ctx (init inp) 100000
+    let simJ := Json.mkObj [("events", mkArr ((visOf { ctx with par := false } sim).map evJson)),
+                            ("err", Json.str (errStr sim.susp)), ("exit", toJson (exitCode sim)),
+                            ("susp", Json.str (reprStr sim.susp))]
+    if op == "simulate" then Json.mkObj [("model", simJ), ("selected", ofNats st.selected)] else
+    let (res, left, best, bestS) := (dfs ctx (init inp) []).run (budget, 0, "")
+    let startedOK := match res with
+      | some s => (startedOf s).all (fun n => startedObs.contains n || s.running.contains n) &&
+                  startedObs.all ((startedOf s).contains ·)
+      | none => false
+    let deps := depsAll c st
+    let tgt := targetOK c (some st) obsAll obsErr obsExit
+    let rev := obsAll.reverse
+    Json.mkObj [
+      ("filter", Json.str "ok"),
+      ("accept", boolJ (res.isSome && startedOK)),
+      ("exhausted", boolJ (left == 0)),
+      ("visited", toJson (budget - left)),
+      ("best_prefix", toJson best), ("best_state", Json.str bestS),
+      ("model", simJ),
+      ("selected", ofNats st.selected),
+      ("wf", Json.mkObj [("resolves", boolJ (resolvesB inp)), ("covers", boolJ (coversB inp)), ("trig", boolJ (trigB inp))]),
+      ("prop", Json.mkObj [("once", boolJ (onceOK rev)), ("after", boolJ (afterOK (trigOf inp) rev)),
+                           ("obey", boolJ (obeyOK deps inp.noAct rev)), ("utd", boolJ (utdOK inp.utd rev)),
+                           ("target", boolJ tgt.1), ("target_why", Json.str tgt.2)]),
+      ("bad_at", Json.mkObj [("once", toJson (firstBad onceOK obsAll)), ("after", toJson (firstBad (afterOK (trigOf inp)) obsAll)),
+                             ("obey", toJson (firstBad (obeyOK deps inp.noAct) obsAll)),
+                             ("utd", toJson (firstBad (utdOK inp.utd) obsAll))]),
+      ("model_prop", Json.mkObj [("once", boolJ (onceOK sim.events)), ("after", boolJ (afterOK (trigOf inp) sim.events))])]
+
 end Driver.Delayed
